@@ -208,6 +208,55 @@ struct MoveOnly
     }
 };
 
+// copyable, but NOT move-assignable: fixed_vector selects its copying replace() overload for such types
+struct CopyOnly
+{
+    int v = 0;
+    char mark = 'U';
+    CopyOnly()
+    {
+        R().tick('D');
+        R().reg(this);
+    }
+    CopyOnly(int x) : v(x), mark('F')
+    {
+        R().tick('V');
+        R().reg(this);
+    }
+    CopyOnly(const CopyOnly& o) : v(o.v), mark(o.mark)
+    {
+        R().tick('C');
+        R().reg(this);
+    }
+    CopyOnly& operator=(const CopyOnly& o)
+    {
+        R().tick('c');
+        if (!R().live.count(this) || !R().live.count(&o))
+            R().errors.push_back("assignment involving an element that is not alive");
+        v = o.v;
+        mark = o.mark;
+        return *this;
+    }
+    CopyOnly& operator=(CopyOnly&&) = delete;
+    ~CopyOnly()
+    {
+        R().unreg(this);
+    }
+};
+
+// assign a fresh value to an element whatever the element type supports
+template <typename T>
+void assign_value(T& dst, int v)
+{
+    if constexpr (std::is_copy_assignable<T>::value)
+    {
+        const T tmp(v);
+        dst = tmp;
+    }
+    else
+        dst = T(v);
+}
+
 // ---------------------------------------------------------------------------------------------
 // reference model and world
 
@@ -950,13 +999,13 @@ struct World
             switch ((op.a + op.b) % 3)
             {
             case 0:
-                v[i] = T(op.b);
+                assign_value(v[i], op.b);
                 break;
             case 1:
-                v.at(i) = T(op.b);
+                assign_value(v.at(i), op.b);
                 break;
             default:
-                *(v.begin() + i) = T(op.b);
+                assign_value(*(v.begin() + i), op.b);
                 break;
             }
             r.vals[i] = op.b;
